@@ -1,8 +1,8 @@
 (** * C15 - canary nodes are valid, distinct, stable and as many as requested.
     Property theorems only; each is closed by [exact] of a lemma of [Proofs/]. *)
-From Coq Require Import List ZArith NArith Bool Sorting.Sorted.
+From Coq Require Import List ZArith NArith Bool Sorting.Sorted Permutation.
 From EDS Require Import Model.Objects Model.Fitness Model.PodSpec Model.Default Model.Canary Model.EdsLogic Model.EdsReconcile
-     Proofs.Lists Proofs.RollingProofs Proofs.EdsInv Proofs.C15Proofs Proofs.C15Sync Proofs.C15Spread.
+     Proofs.Lists Proofs.RollingProofs Proofs.EdsInv Proofs.C15Proofs Proofs.C15Sync Proofs.C15Spread Proofs.C15Restarts.
 Import ListNotations.
 Open Scope Z_scope.
 
@@ -171,3 +171,15 @@ Definition C15_valid_while_active_statement : Prop :=
     es_obj sn = Some e -> st_canary (e_strategy e) = Some cspec ->
     last_such (rs_up_to_date e) (rs_of_eds e (es_rss sn)) = Some u ->
     forall nn, In nn (cs_nodes c') -> valid_canary_node sn cspec u nn.
+
+(** The restart tally that ranks the candidates counts every listed daemon pod of the node and does not depend on
+    the order in which the API server lists the pods. *)
+Theorem C15_restarts_order_irrelevant : forall pods pods' nn,
+  Permutation pods pods' -> node_restarts pods nn = node_restarts pods' nn.
+Proof. exact node_restarts_order_irrelevant. Qed.
+Print Assumptions C15_restarts_order_irrelevant.
+
+Theorem C15_restarts_count_every_pod : forall l1 p l2 nn, p_nodename p = nn ->
+  node_restarts (l1 ++ p :: l2) nn = p_restart_sum p + node_restarts (l1 ++ l2) nn.
+Proof. exact node_restarts_counts_every_pod. Qed.
+Print Assumptions C15_restarts_count_every_pod.
